@@ -25,6 +25,7 @@ func be16(b [2]byte) uint16 { return uint16(b[0])*256 + uint16(b[1]) }
 
 //@ func Ones
 //@ props C20 C15
+//@ inline
 //@ assigns nothing
 //@ ensures [C20.ones] int16(result) == specOnes(b)
 
